@@ -317,7 +317,7 @@ func c06Versions() {
 func init() {
 	grammar := &fw.Phase{
 		Name: "grammar-and-closure",
-		N:    fw.Fixed(40000, 1000000),
+		N:    fw.Fixed(150000, 1000000),
 		Run: func(env *fw.Env, idx int) fw.Result {
 			rnd := env.Rand(idx)
 			a := gen.Grammar(rnd)
@@ -326,7 +326,7 @@ func init() {
 	}
 	mutated := &fw.Phase{
 		Name: "mutated",
-		N:    fw.Fixed(40000, 1000000),
+		N:    fw.Fixed(150000, 1000000),
 		Run: func(env *fw.Env, idx int) fw.Result {
 			rnd := env.Rand(idx)
 			a := gen.Grammar(rnd)
